@@ -15,6 +15,18 @@ CLAIMS = {
  'C07': ('balance branches of the real ZMQSender.send (arbitrary symbolic client table over 2-3 outputs) and ZMQReceiver.recv (2-3 branches, disjoint symbolic ids): one output per frame, ordered duplicate-free rejoin, no first-hop prefetch',
          'trusted: fake ZeroMQ model, representation invariant; bounds: 2-3 outputs/branches, <=3 queued requests, 2-3 publishes per branch'),
 }
+CLAIMS.update({
+ 'C09': ('real MQ.frames2topicmsgs/topicmsgs2frames and Frame codec paths over the array model with symbolic image height/width: shape, format, presence, data, raw pixels at a symbolic index, identity forwarding of existing jpg',
+         'trusted: numpy/OpenCV contract model (validated differentially on concrete images each run), lossless jpg model; JPEG tolerance and strided memoryview copying only checked concretely; bounds: 0-3 topics, sides in [1,4096]'),
+ 'C10': ('real frame.py over the array model: symbolic operation sequences (17 operations) with symbolic sizes, pixel index and written values; z3 proves view freshness, no aliasing of promised copies, no ro->rw, jpg cache consistency after every step',
+         'trusted: numpy/OpenCV contract model (validated differentially each run); bounds: sequences of 3 (quick) / 4 (thorough) operations, <=4 live frames'),
+ 'C13': ('real rolllog.py over an in-memory file system with file_size, total_size and all timestamps as unconstrained z3 integers and a symbolic operation sequence; file-name equality decided by z3 on symbolic stamps; list-model oracle',
+         'trusted: fake FS (POSIX semantics incl. unlinked-but-open files), exact-microsecond timestamps (float rounding of ts*1e6 outside the claim); bounds: 4-5 operations, <=6 records of 1-2 bytes'),
+ 'C14': ('real rolllog.py reader with persisted head over the fake FS; crash point = symbolic index into the mutations of write_head (create/write/rename, torn temp content), restarts <=2; no record on disk skipped, restart never raises',
+         'trusted: fake FS with atomic rename (process crash, not power loss); bounds: 5-6 operations, <=5 records'),
+ 'C17': ('real Util.execute_xform_size/execute_xforms/execute_xform_box and VideoReader.thread_reader size arithmetic: bounds symbolic in [1,4096], Python floats as reals with sound rounding envelopes; flips/rotations/conversions against reference index maps at a symbolic pixel',
+         'trusted: IEEE rounding model (envelope 2^-30), OpenCV contract model; image sizes for the size laws from an explicit set of 14 (quick) / 131 (thorough) sizes; interpolation values outside the claim'),
+})
 NA = {}
 props = [json.loads(l)['id'] for l in open(os.path.join(V, 'properties.jsonl'))]
 checks = []
